@@ -23,6 +23,12 @@ from .c11 import fbits
 
 def my_distance(p1, p2, grid) -> float:
     d = np.asarray(p1, float) - np.asarray(p2, float)
+    if grid is not None and type(grid).__name__ == "CylindricalSymGrid":
+        # points in Cartesian coordinates; the only periodic direction is the symmetry axis z
+        if grid.periodic[1]:
+            lo, hi = grid.axes_bounds[1]
+            d[2] = (d[2] + (hi - lo) / 2) % (hi - lo) - (hi - lo) / 2
+        return float(np.sqrt((d * d).sum()))
     if grid is not None:
         for ax in range(grid.num_axes):
             if grid.periodic[ax]:
@@ -239,6 +245,15 @@ def pairwise_checks(ck: Check, n_cases: int):
         grid = make_grid(dim, per, rng) if rng.random() < 0.6 else None
         n = rng.choice([0, 1, 2, 3, 5, 7])
         drops = [SphericalDroplet(np.array([rng.uniform(-2, 9) for _ in range(dim)]), rng.choice([0.0, 0.5, rng.uniform(0, 2)])) for _ in range(n)]
+        if dim == 3 and rng.random() < 0.4:
+            # cylindrical grids (droplets on the symmetry axis), periodic along the axis or not: the metric wraps z only
+            from pde import CylindricalSymGrid
+
+            zlo = rng.choice([0.0, -1.5])
+            grid = CylindricalSymGrid(4.0, [zlo, zlo + rng.choice([6.0, 7.5])], [4, 6], periodic_z=rng.random() < 0.7)
+            per = [False, bool(grid.periodic[1])]
+            drops = [SphericalDroplet(np.array([0.0, 0.0, rng.uniform(-2, 9)]), rng.choice([0.0, 0.5, rng.uniform(0, 2)])) for _ in range(n)]
+            ck.count("pairwise.cylindrical" + (".periodic_z" if grid.periodic[1] else ""))
         if n >= 2 and rng.random() < 0.3:
             # two droplets with exactly coincident centres and different radii (not three: the k-d tree's answer is then ambiguous)
             drops[1] = SphericalDroplet(drops[0].position.copy(), drops[0].radius + rng.uniform(0.3, 2))
@@ -279,7 +294,11 @@ def pairwise_checks(ck: Check, n_cases: int):
                 if grid is None:
                     dfun = lambda a, b: np.linalg.norm(a - b)
                 else:
-                    dfun = lambda a, b: grid.distance(a, b, coords="cartesian")
+                    # (the metric as the code sees it: `droplets.tools.spherical.grid_distance` since the repair of D24, py-pde's before)
+                    from droplets.tools import spherical as _sp
+
+                    _gd = getattr(_sp, "grid_distance", None)
+                    dfun = (lambda a, b: _gd(grid, a, b)) if _gd is not None else (lambda a, b: grid.distance(a, b, coords="cartesian"))
                 tab = [dfun(em[i].position, em[j].position) for i in range(n) for j in range(n)]
                 reqs.append(f"c10 pairwise {n} {int(sub)} " + " ".join(fbits(d.radius) for d in em) + " " + " ".join(fbits(x) for x in tab))
                 expect.append((case, sub, M))
